@@ -40,6 +40,8 @@ func checkC08(c *Ctx, r *Report) {
 	c08b(c, r, st)
 	c08c(c, r, st)
 	c08d(c, r)
+	// the object parser gives every nested parse its own context; the global parser must give it its own stack
+	c15FreshStackAll(r, "C08.b←C15.c", st)
 }
 
 func c08a(c *Ctx, r *Report, st *Staged) {
